@@ -16,11 +16,19 @@
 //     an inc/dec operand, the first argument of delete/clear/copy/sort.Slice/..., or has its address taken;
 //   - calls of own methods that never lock (helpers such as sort()) are inlined; calls of own locking
 //     methods become CallSelf; function literals are walked in place;
-//   - if/else, switch and loops (zero or one iteration) fork paths; `if !recv.f` on a never-written bool
-//     field is evaluated (it is constantly false).
+//   - if/else, switch and loops fork paths; a loop runs zero or one time, and zero, one or TWO times when its
+//     body contains a lock operation or a call of a locking method (so that "one critical section per
+//     iteration" shows up as several sections of one call); `break` leaves the loop, `continue` starts the
+//     next iteration; `if !recv.f` on a never-written bool field is evaluated (it is constantly false).
+//
+// Besides the Coq file a JSON side file lists, per method and path, the critical sections in order
+// (owner, mode, fields read / written inside), the guarded accesses outside any section and the calls of
+// locking methods: the facts behind the obligation "one atomic step of the model = one critical section"
+// (LockModel.step_ok, generated Lemma extracted_atomic_steps).
 package main
 
 import (
+	"encoding/json"
 	"flag"
 	"fmt"
 	"go/ast"
@@ -62,7 +70,7 @@ func (e Ev) coq() string {
 
 type path struct {
 	evs  []Ev
-	term int // 0 running, 1 returned, 2 left the loop body (break/continue)
+	term int // 0 running, 1 returned, 2 continue (next iteration), 3 break (leaves the loop / switch)
 }
 
 type method struct {
@@ -387,9 +395,13 @@ func (w *walker) stmt(ps []path, s ast.Stmt) []path {
 		}
 		return ps
 	case *ast.BranchStmt:
+		code := 2 // continue (goto / fallthrough are not used by the target files; treated as continue)
+		if t.Tok == token.BREAK {
+			code = 3
+		}
 		for i := range ps {
 			if ps[i].term == 0 {
-				ps[i].term = 2
+				ps[i].term = code
 			}
 		}
 		return ps
@@ -412,23 +424,13 @@ func (w *walker) stmt(ps []path, s ast.Stmt) []path {
 	case *ast.ForStmt:
 		ps = w.stmt(ps, t.Init)
 		ps = w.expr(ps, t.Cond, false)
-		body := w.block(clonePaths(ps), t.Body.List)
-		body = w.stmt(body, t.Post)
-		for i := range body {
-			if body[i].term == 2 {
-				body[i].term = 0
-			}
-		}
-		return dedup(append(ps, body...))
+		return w.loop(ps, t.Body, func(b []path) []path {
+			b = w.stmt(b, t.Post)
+			return w.expr(b, t.Cond, false)
+		})
 	case *ast.RangeStmt:
 		ps = w.expr(ps, t.X, false)
-		body := w.block(clonePaths(ps), t.Body.List)
-		for i := range body {
-			if body[i].term == 2 {
-				body[i].term = 0
-			}
-		}
-		return dedup(append(ps, body...))
+		return w.loop(ps, t.Body, nil)
 	case *ast.SwitchStmt:
 		ps = w.stmt(ps, t.Init)
 		ps = w.expr(ps, t.Tag, false)
@@ -444,6 +446,63 @@ func (w *walker) stmt(ps []path, s ast.Stmt) []path {
 		return w.expr(ps, t.Chan, false)
 	}
 	return ps
+}
+
+// loop: zero or one iteration; zero, one or two when the body locks (a critical section per iteration is
+// several critical sections of the call).  after(b) = post statement and condition between iterations.
+func (w *walker) loop(ps []path, body *ast.BlockStmt, after func([]path) []path) []path {
+	iters := 1
+	if locksInside(body) {
+		iters = 2
+	}
+	out := clonePaths(ps) // zero iterations
+	cur := clonePaths(ps)
+	for k := 0; k < iters; k++ {
+		b := w.block(cur, body.List)
+		var next []path
+		for i := range b {
+			switch b[i].term {
+			case 3: // break: leaves the loop
+				b[i].term = 0
+				out = append(out, b[i])
+			case 2: // continue: next iteration
+				b[i].term = 0
+				next = append(next, b[i])
+			case 1: // returned
+				out = append(out, b[i])
+			default:
+				next = append(next, b[i])
+			}
+		}
+		if after != nil {
+			next = after(next)
+		}
+		out = append(out, clonePaths(next)...) // the loop ends after this iteration
+		cur = next
+	}
+	return dedup(out)
+}
+
+// locksInside: the statement contains a lock operation or a call of a method (of any target type, by name)
+// that locks
+func locksInside(n ast.Node) bool {
+	if hasLockOp(n) {
+		return true
+	}
+	found := false
+	ast.Inspect(n, func(x ast.Node) bool {
+		if c, ok := x.(*ast.CallExpr); ok {
+			if s, ok := c.Fun.(*ast.SelectorExpr); ok {
+				for _, ms := range methods {
+					if m := ms[s.Sel.Name]; m != nil && m.locks {
+						found = true
+					}
+				}
+			}
+		}
+		return !found
+	})
+	return found
 }
 
 func (w *walker) cases(ps []path, body *ast.BlockStmt) []path {
@@ -465,7 +524,7 @@ func (w *walker) cases(ps []path, body *ast.BlockStmt) []path {
 		}
 		br := w.block(clonePaths(ps), list)
 		for i := range br {
-			if br[i].term == 2 {
+			if br[i].term == 3 { // break leaves the switch / select; continue belongs to the enclosing loop
 				br[i].term = 0
 			}
 		}
@@ -546,6 +605,82 @@ func collectWrites(body *ast.BlockStmt) {
 		}
 		return true
 	})
+}
+
+// ---------------------------------------------------------------- critical sections of a path (JSON side file)
+
+type section struct {
+	Kind   string   `json:"kind"` // "section" | "call" | "outside"
+	Owner  string   `json:"owner,omitempty"`
+	Mode   string   `json:"mode,omitempty"` // "W" (Lock) | "R" (RLock)
+	Reads  []string `json:"reads,omitempty"`
+	Writes []string `json:"writes,omitempty"`
+	Callee string   `json:"callee,omitempty"`
+}
+
+func addUniq(l []string, x string) []string {
+	for _, y := range l {
+		if y == x {
+			return l
+		}
+	}
+	return append(l, x)
+}
+
+// sectionsOf mirrors LockModel.sections: the deferred unlocks run LIFO at the end; an access outside a
+// section, a nested lock or a section left open are reported as "outside" items.
+func sectionsOf(evs []Ev) []section {
+	var flat, ds []Ev
+	for _, e := range evs {
+		switch e.K {
+		case "DeferUnlock":
+			ds = append([]Ev{{K: "Unlock", O: e.O}}, ds...)
+		case "DeferRUnlock":
+			ds = append([]Ev{{K: "RUnlock", O: e.O}}, ds...)
+		default:
+			flat = append(flat, e)
+		}
+	}
+	flat = append(flat, ds...)
+	out := []section{}
+	var cur *section
+	stray := func(e Ev) {
+		it := section{Kind: "outside", Owner: e.O, Callee: e.K}
+		if e.K == "Acc" {
+			it.Callee = ""
+			if e.W {
+				it.Writes = []string{e.F}
+			} else {
+				it.Reads = []string{e.F}
+			}
+		}
+		out = append(out, it)
+	}
+	for _, e := range flat {
+		switch {
+		case cur == nil && (e.K == "Lock" || e.K == "RLock"):
+			cur = &section{Kind: "section", Owner: e.O, Mode: map[string]string{"Lock": "W", "RLock": "R"}[e.K]}
+		case cur == nil && e.K == "CallSelf":
+			out = append(out, section{Kind: "call", Owner: e.O, Callee: e.F})
+		case cur != nil && e.K == "Acc" && e.O == cur.Owner:
+			if e.W {
+				cur.Writes = addUniq(cur.Writes, e.F)
+			} else {
+				cur.Reads = addUniq(cur.Reads, e.F)
+			}
+		case cur != nil && e.O == cur.Owner && ((e.K == "Unlock" && cur.Mode == "W") || (e.K == "RUnlock" && cur.Mode == "R")):
+			out = append(out, *cur)
+			cur = nil
+		default:
+			stray(e)
+		}
+	}
+	if cur != nil {
+		cur.Kind = "outside"
+		cur.Callee = "section-left-open"
+		out = append(out, *cur)
+	}
+	return out
 }
 
 func main() {
@@ -691,7 +826,10 @@ func main() {
 	sort.Strings(gl)
 	fmt.Fprintf(&sb, "   guarded fields: %s\n", strings.Join(gl, ", "))
 	var helpers, assumed []string
-	type item struct{ typ, name, coq string }
+	type item struct {
+		typ, name, coq string
+		secs           [][]section
+	}
 	var items []item
 	for _, typ := range typeNames {
 		var names []string
@@ -712,19 +850,21 @@ func main() {
 			w := &walker{m: m}
 			ps := dedup(w.block([]path{{}}, m.decl.Body.List))
 			var pstr []string
+			var secs [][]section
 			for _, p := range ps {
+				secs = append(secs, sectionsOf(p.evs))
 				var es []string
 				for _, e := range p.evs {
 					es = append(es, e.coq())
 				}
 				pstr = append(pstr, "["+strings.Join(es, "; ")+"]")
 			}
-			items = append(items, item{typ, n, fmt.Sprintf("  {| mtype := %q; mname := %q; mpaths := [\n      %s] |}", typ, n, strings.Join(pstr, ";\n      "))})
+			items = append(items, item{typ, n, fmt.Sprintf("  {| mtype := %q; mname := %q; mpaths := [\n      %s] |}", typ, n, strings.Join(pstr, ";\n      ")), secs})
 		}
 	}
 	fmt.Fprintf(&sb, "   inlined helpers (unexported, never lock; checked at their call sites): %s\n", strings.Join(helpers, ", "))
 	fmt.Fprintf(&sb, "   not checked (the name states that the caller holds the lock): %s *)\n", strings.Join(assumed, ", "))
-	sb.WriteString("From MV Require Import Lib.ListX Lib.Sched C16.LockModel C16.LockProofs.\nFrom Coq Require Import String.\nOpen Scope string_scope.\n\n")
+	sb.WriteString("From MV Require Import Lib.ListX Lib.Sched C16.LockModel C16.LockProofs C16.AtomicModel C16.AtomicProofs.\nFrom Coq Require Import String.\nOpen Scope string_scope.\n\n")
 	sb.WriteString("Definition methods : list method := [\n")
 	for i, it := range items {
 		if i > 0 {
@@ -734,7 +874,21 @@ func main() {
 	}
 	sb.WriteString("\n].\n\n")
 	sb.WriteString("Definition offenders := Eval vm_compute in map (fun m => (mtype m, mname m)) (filter (fun m => negb (well_locked m)) methods).\nPrint offenders.\n\n")
+	sb.WriteString("(* methods with a path that is not ONE critical section (or one call of a locking method) and that does not\n   fit a multi-step shape declared for that method in AtomicModel.multi_step *)\n")
+	sb.WriteString("Definition nonatomic := Eval vm_compute in map (fun m => (mtype m, mname m)) (filter (fun m => negb (step_ok m)) methods).\nPrint nonatomic.\n")
+	sb.WriteString("(* methods that rely on their declared multi-step shape *)\n")
+	sb.WriteString("Definition multistep := Eval vm_compute in map (fun m => (mtype m, mname m)) (filter (fun m => negb (forallb atomic_path (mpaths m))) methods).\nPrint multistep.\n\n")
 	sb.WriteString("Lemma extracted_well_locked : forallb well_locked methods = true.\nProof. vm_compute. reflexivity. Qed.\n\n")
+	sb.WriteString("Lemma extracted_atomic_steps : forallb step_ok methods = true.\nProof. vm_compute. reflexivity. Qed.\n\n")
+	sb.WriteString(`(* every method the models treat as ONE atomic step executes, along each of its paths, nothing at all, one call
+   of a locking method of its own object, or exactly one critical section that contains all its accesses to
+   guarded fields (reads only, when the section is a read section) *)
+Theorem extracted_one_section : forall m p, In m methods -> In p (mpaths m) ->
+  multi_step (mtype m) (mname m) = None -> one_section (flatc [] p).
+Proof. exact (step_ok_one_section methods extracted_atomic_steps). Qed.
+Print Assumptions extracted_one_section.
+
+`)
 	sb.WriteString(`(* the generic theorem instantiated with the extracted methods: any number of threads, each calling any
    sequence of these methods along any of their paths *)
 Theorem extracted_threads_safe : forall (threads : list (list (list ev))) (st : state LM),
@@ -761,7 +915,8 @@ Print Assumptions extracted_threads_safe.
 		if i > 0 {
 			js.WriteString(",")
 		}
-		fmt.Fprintf(&js, "{\"type\":%q,\"method\":%q,\"skeleton\":%q}", it.typ, it.name, it.coq)
+		sj, _ := json.Marshal(it.secs)
+		fmt.Fprintf(&js, "{\"type\":%q,\"method\":%q,\"skeleton\":%q,\"paths\":%s}", it.typ, it.name, it.coq, sj)
 	}
 	js.WriteString("]")
 	_ = os.WriteFile(strings.TrimSuffix(*out, ".v")+".json", []byte(js.String()), 0o644)
